@@ -31,7 +31,7 @@ ASSUMPTIONS = ["merging stubs into the *target* of a runtime alias is documented
                "quick tier uses two docstring/annotation presence patterns (runtime docs only + stub annotations only; everything present on both sides); thorough uses all 16"]
 MANIFEST = {
     "category": "exploration",
-    "text": "Bounded exhaustive enumeration of (runtime module, stubs) pairs by per-slot status vectors (3750 vectors) x 3 stub placements x 2 directory listing orders (x 4 docstring/annotation presence patterns in the thorough tier), plus all 1-3 overload-only stub functions x runtime-presence masks at module and class level, loaded by the real loader/finder/merger with the directory listing order owned by the harness; compared with a per-slot reference merge and across listing orders; further families: overload sets named like a runtime member of another kind, wildcard re-exports with and without stubs, and two module/stubs pairs with an alias across them under all 120 listing orders. The function slot has a status for stub signatures with / and * markers the runtime signature lacks; family SL reaches the stubs distribution and the package through symbolic links and compares with plain directories.",
+    "text": "Bounded exhaustive enumeration of (runtime module, stubs) pairs by per-slot status vectors (3750 vectors) x 3 stub placements x 2 directory listing orders (x 4 docstring/annotation presence patterns in the thorough tier), plus all 1-3 overload-only stub functions x runtime-presence masks at module and class level, loaded by the real loader/finder/merger with the directory listing order owned by the harness; compared with a per-slot reference merge and across listing orders; further families: overload sets named like a runtime member of another kind, wildcard re-exports with and without stubs, and two module/stubs pairs with an alias across them under all 120 listing orders. The function slot has a status for stub signatures with / and * markers the runtime signature lacks; family SL reaches the stubs distribution and the package through symbolic links and compares with plain directories. Family SL also requests the package through module names two and three deep.",
     "note": "Complete for the slot/status/placement alphabet; listing order is controlled through the os.walk / Path.iterdir seam of _griffe.finder.",
     "technique": "model checking by exhaustive enumeration of status vectors x listing orders on the real loader with a reference merge",
 }
